@@ -922,10 +922,11 @@ func normalize(w *AWorld) {
 			}
 			t.Caps[j].Nb = nb
 		}
-		id := t.ID
-		t.ID = 0
+		// what decides a token's link: its fields, not what is attached to it or how it embeds its proofs
+		id, ea, pa, il, br := t.ID, t.EmptyAttach, t.PreAttach, t.Inline, t.Bare
+		t.ID, t.EmptyAttach, t.PreAttach, t.Inline, t.Bare = 0, false, 0, nil, nil
 		key := mustJSON(t)
-		t.ID = id
+		t.ID, t.EmptyAttach, t.PreAttach, t.Inline, t.Bare = id, ea, pa, il, br
 		if seen[key] {
 			t.Nonce = fmt.Sprintf("u%d", id)
 		}
